@@ -15,7 +15,8 @@ package checks
 //	query k of a sequence on one matcher == the same query on a fresh matcher
 //
 // Parts: (a) exhaustive small scope, (b) random regexps from a grammar against sampled paths,
-// (c) query sequences alternating the case rule, (m) the remaining comparison functions.
+// (c) query sequences alternating the case rule, (m) the remaining comparison functions,
+// (t) end to end through the tool (c19e2e.go).
 // Failing inputs are shrunk (unit deletions, re-judged through the probe) and classified by
 // the case-sensitive constructs left in the minimal input.
 
@@ -1526,7 +1527,8 @@ func (x *c19Ctx) runM(n int) {
 func RunC19(e *core.Env) int {
 	rep := core.NewReport(e, "exploration",
 		"in-process calls of the exported matcher API judged against the standard library (==, strings.EqualFold, regexp with (?i)); "+
-			"(a) exhaustive pattern x path scopes, (b) seeded random regexps from a grammar, (c) seeded query sequences vs fresh matchers, (m) identifier comparisons; "+
+			"(a) exhaustive pattern x path scopes, (b) seeded random regexps from a grammar, (c) seeded query sequences vs fresh matchers, (m) identifier comparisons, "+
+			"(t) end to end: :skip patterns through the real tool, skip decision per destination path of the generated functions under both case rules; "+
 			"one evaluation = one constructor or Match call; a case is non-trivial/distinct by (part, API, pattern kind, case rule, constructor/query rule switched, "+
 			"pattern and path length class or grammar feature, reference answer, agree/differ)")
 	rep.Assume("a :skip pattern is in /regexp/ form iff it has at least two characters and starts and ends with '/'",
@@ -1592,6 +1594,12 @@ func RunC19(e *core.Env) int {
 	x.runExplicit("c", x.genC(nC))
 	x.phase("part m")
 	x.runM(nM)
+	x.phase("part t")
+	nT := 200
+	if thorough {
+		nT = 2500
+	}
+	c19RunE2E(e, rep, nT)
 	x.phase("shrink+report")
 	rep.Extra("random_regexps", nB)
 	rep.Extra("sequences", nC)
